@@ -3,14 +3,15 @@ import YaegiVerif.Model.Share
   C04 — divergence classes of operation sequences (decidable predicates of the INPUT) and the domain
   `Dom` of the refinement theorem: the sequences that belong to no class.
 
-    multi-shortcut           multi-assign with a call (user function, make, len, cap) on the right, or a
-                             composite literal assigned to a plain variable; multi-define with a composite
-                             literal on the right                                    (cfg.go: n.gen = nop)
-    struct-lit-assign        `x = T{…}` with x a plain variable and T a struct        (doComposite rebinds the slot)
+    (multi-shortcut          multi-assign with a call or a composite literal on the right: repaired by commit
+                             647e2cf of the repository, no longer a class; the model still reproduces the old
+                             behaviour when the fact `shortcutGuardsSingle` is false)
+    (struct-lit-assign       `x = T{…}` rebinding the variable: repaired by 3590fb8, no longer a class)
     define-lit-in-loop       `x := [n]T{…}` / `[]T{…}` / `map…{…}` inside a loop body   (arrayLit stores through the old cell)
-    lookup2-stale            `x, ok = m[k]`, or `x, ok := m[k]` inside a loop body      (getIndexMap2 skips the store)
+    (lookup2-stale           missing key leaves the destination unchanged: repaired by 6b8d7ae, no longer a class)
+    lookup2-define-in-loop   `x, ok := m[k]` inside a loop body: no new x per iteration  (getIndexMap2 only stores)
     multidefine-redeclared   `x, y := …` where x is only redeclared                     (assign: fresh cell for every name)
-    multidefine-sequential   `x, y := e, x` (a later right-hand side IS an earlier left-hand variable)   F21
+    (multidefine-sequential  `x, y := e, x`: F21, repaired by 3e30c22, no longer a class)
     append-alias-args        `append(s, a, b…)` where an operand after the first is an element / field /
                              pointee expression                                       (_append passes slots)
 -/
@@ -45,17 +46,12 @@ def aliasArgs : List RExp → Bool
   | _ :: rest => rest.any isHandleLoad
 
 def sopClass (inBody : Bool) : SOp → Option String
-  | .assign (.var _) r => if isStructLit r then some "struct-lit-assign" else none
   | .define _ r => if inBody && isArrayLit r then some "define-lit-in-loop" else none
-  | .multi ls rs => if multiHasShortcut ls rs then some "multi-shortcut" else none
-  | .multidef xs rd _ rs =>
-    if anyCompositeLit rs then some "multi-shortcut"
-    else if seqDep xs rs [] then some "multidefine-sequential"
-    else if rd.any id then some "multidefine-redeclared"
-    else none
+  | .multidef _ rd _ _ =>
+    if rd.any id then some "multidefine-redeclared" else none
   | .append _ _ _ args _ _ _ => if aliasArgs args then some "append-alias-args" else none
   | .lookup2 isDef x ok _ _ _ =>
-    if !isDef || inBody then some "lookup2-stale" else if x == ok then some "ill-formed" else none
+    if isDef && inBody then some "lookup2-define-in-loop" else if isDef && x == ok then some "ill-formed" else none
   | _ => none
 
 def sopsClass (inBody : Bool) : List SOp → Option String
